@@ -174,6 +174,8 @@ def extract_grammar(src: Source, lexer_tokens: dict[str, list], rel="language/gr
                         if not (isinstance(a, ast.Constant) and isinstance(a.value, str)):
                             raise AnalysisError(f"{c.name}.{st.name}: grammar rule is not a string literal")
                         rules.append(a.value)
+                elif dotted(d) in ("staticmethod", "classmethod", "property", "functools.cached_property", "cached_property"):
+                    continue        # a helper of the class, not a grammar rule
                 else:
                     raise AnalysisError(f"{c.name}.{st.name}: decorator not understood: {norm(d)}")
             if rules:
